@@ -274,6 +274,8 @@ def extract(repo):
         grab('logHeader%sField' % nm, lambda idx=idx: int(header_fields()[0][idx][0]))
         grab('logHeader%sWire' % nm, lambda idx=idx: header_fields()[1][header_fields()[0][idx][1]])
     grab('sync42MaxConcurrency', lambda: eval_int(const_int(read(repo, 'sync42/src/lib.rs'), 'MAX_CONCURRENCY')))
+    grab('skipfreeDefaultMaxHeight', lambda: eval_int(const_int(read(repo, 'skipfree/src/lib.rs'), 'DEFAULT_MAX_HEIGHT')))
+    grab('skipfreeBranching', lambda: eval_int(const_int(read(repo, 'skipfree/src/lib.rs'), 'BRANCHING')))
     return out, notes
 
 SST_WIRE = {'uint64': 0, 'uint32': 0, 'int64': 0, 'int32': 0, 'sint64': 0, 'sint32': 0, 'Bool': 0, 'fixed64': 1, 'sfixed64': 1,
